@@ -185,8 +185,8 @@ def run_counter_part(chk, args):
 def journal_configs(quick):
     if quick:
         # Faults_quick = Scripts_quick plus up to two failed journal Writes and one failed Sync per behaviour
-        return [("Faults_quick.cfg", 5000), ("Layouts_quick.cfg", 10000), ("FaultLayouts_quick.cfg", 3000), ("Keys.cfg", 90), ("Layouts_large.cfg", 20)]
-    return [("Scripts_thorough.cfg", 30000), ("Faults_thorough.cfg", 50000), ("FaultLayouts_thorough.cfg", 40000), ("Layouts_thorough.cfg", 30000), ("Layouts_wide.cfg", 10000), ("Layouts_medium.cfg", 1000),
+        return [("Faults_quick.cfg", 5000), ("Layouts_quick.cfg", 10000), ("FaultLayouts_quick.cfg", 3000), ("Order_quick.cfg", 3000), ("Keys.cfg", 90), ("Layouts_large.cfg", 20)]
+    return [("Scripts_thorough.cfg", 30000), ("Faults_thorough.cfg", 50000), ("FaultLayouts_thorough.cfg", 40000), ("Order_thorough.cfg", 30000), ("Order_four.cfg", 20000), ("Layouts_thorough.cfg", 30000), ("Layouts_wide.cfg", 10000), ("Layouts_medium.cfg", 1000),
             ("Layouts_large.cfg", 20), ("Layouts_dense.cfg", 3), ("Keys.cfg", 90), ("Keys_medium.cfg", 10)]
 
 
@@ -198,17 +198,25 @@ def run_journal_part(chk, args):
     q = chk.tier == "quick"
     drv = _Bg(_journal_driver)
     total = 0
+    cfgs = journal_configs(q)
+    # quick: all TLC runs at once (one worker each; vlib.tlc is thread-safe), then the driver runs; thorough: one
+    # configuration at a time, so that only one configuration's cases are in memory
+    ahead = {}
+    if q:
+        ahead = {cfg: _Bg(lambda cfg=cfg: vlib.tlc(JOU, "Journal", cfg, workers=1, timeout=2400)) for cfg, _ in cfgs}
     # teeth: the variant that stamps lastWriteTime although the journal Write failed must break StampCoversContent
     r = vlib.tlc(JOU, "Journal", "Stamp_before_write.cfg", workers=1, timeout=900, keep_prints=False)
     chk.add_tlc(r)
+    for b in ahead.values():
+        b.t.join()
     if r.error != "invariant:StampCoversContent":
         chk.fail("spec/Journal Stamp_before_write.cfg: the stamp-before-write variant was expected to violate StampCoversContent, got %s" % r.error)
         return
-    faulty = 0
-    for cfg, least in journal_configs(q):
+    faulty = unordered = 0
+    for cfg, least in cfgs:
         # one TLC run both model-checks the writer machine on every script of the
         # configuration (invariants) and prints the cases (Emit needs one worker)
-        r = vlib.tlc(JOU, "Journal", cfg, workers=1, timeout=2400)
+        r = ahead[cfg].get() if cfg in ahead else vlib.tlc(JOU, "Journal", cfg, workers=1, timeout=2400)
         chk.add_tlc(r)
         if r.error:
             chk.fail("spec/Journal %s: %s - the writer model must satisfy its invariants\n%s" % (cfg, r.error, r.out[-1500:]))
@@ -218,6 +226,8 @@ def run_journal_part(chk, args):
             chk.fail("vacuous: %s produced only %d cases" % (cfg, len(cases)))
             return
         faulty += sum(1 for c in cases if c.get("fails"))
+        unordered += sum(1 for c in cases if c["kind"] == "window" and c["expect"]["included"] > 0
+                         and c["order"] != list(range(1, len(c["chunks"]) + 1)))
         inside = [c for c in cases if c["kind"] == "window" and 0 < c["expect"]["included"] < len(c["chunks"])]
         if inside:
             chk.sample(inside[len(inside) // 2])
@@ -227,11 +237,15 @@ def run_journal_part(chk, args):
             cfg, r.distinct, len(cases), r.wall, s.get("cases", 0), s.get("plans", 0)))
     chk.cov["c19_journal_cases"] = total
     chk.cov["c19_journal_cases_with_write_fault"] = faulty
+    chk.cov["c19_journal_cases_out_of_order"] = unordered
+    if unordered < 500:
+        chk.fail("vacuous: only %d journal cases read a non-chronological journal with a chunk inside the window" % unordered)
+        return
     if faulty < 1000:
         chk.fail("vacuous: only %d journal cases contain a failed write" % faulty)
         return
     chk.cov["rule"] += (" | journal: cases are behaviours of spec/Journal (a writer script, then a window): every script up to the configured "
-                        "length over AddIP/Wait/Flush with up to two failed journal Writes and one failed Sync placed at every write attempt, and structured layouts of <= 3 chunks with contents over 2-3 address blocks x every "
+                        "length over AddIP/Wait/Flush with up to two failed journal Writes and one failed Sync placed at every write attempt, structured layouts of <= 3 chunks read in every permutation / with a repeated line / doubled, and structured layouts of <= 3 chunks with contents over 2-3 address blocks x every "
                         "before/equal/after placement of both window ends at every chunk boundary; each script runs on the real ClusterWriter "
                         "under the fake clock (1 ns ticks and a coarser unit) and its chunk boundaries must equal the model's; non-trivial = "
                         "the window contains at least one chunk; masking-key cases all count")
